@@ -75,6 +75,37 @@ theorem Wf.unpack {z : Bytes} (h : Wf z) : ∃ ls, unpack z = some ls := by
   obtain ⟨fuel, ls, h⟩ := h
   exact ⟨ls, labels_fuel fuel z ls _ h (Nat.lt_succ_self _)⟩
 
+/-- `z` starts with a well-formed wire name all of whose labels are shorter than 64 bytes
+(RFC 1035; enforced by miekg's unpacking) -/
+def Wf63 (z : Bytes) : Prop := ∃ fuel ls, labels fuel z = some ls ∧ ∀ l ∈ ls, l.length < 64
+
+theorem Wf63.wf {z : Bytes} (h : Wf63 z) : Wf z := by
+  obtain ⟨fuel, ls, h, _⟩ := h
+  exact ⟨fuel, ls, h⟩
+
+theorem Wf63.of_unpack {q : Bytes} {ls : List Bytes} (h : unpack q = some ls)
+    (h63 : ∀ l ∈ ls, l.length < 64) : Wf63 q := ⟨_, ls, h, h63⟩
+
+theorem Wf63.unpack {z : Bytes} (h : Wf63 z) : ∃ ls, unpack z = some ls ∧ ∀ l ∈ ls, l.length < 64 := by
+  obtain ⟨fuel, ls, h, h63⟩ := h
+  exact ⟨ls, labels_fuel fuel z ls _ h (Nat.lt_succ_self _), h63⟩
+
+theorem Wf63.parent {n : UInt8} {rest : Bytes} (h : Wf63 (n :: rest)) (hn : n ≠ 0) :
+    Wf63 (rest.drop n.toNat) := by
+  obtain ⟨fuel, ls, h, h63⟩ := h
+  cases fuel with
+  | zero => simp [labels] at h
+  | succ fuel =>
+    simp only [labels] at h
+    rw [if_neg hn] at h
+    split at h
+    · cases h
+    · split at h
+      · rename_i ls' hls'
+        cases h
+        exact ⟨fuel, ls', hls', fun l hl => h63 l (List.mem_cons_of_mem _ hl)⟩
+      · cases h
+
 /-! ### the zone-cut walk of the v1 layouts -/
 
 /-- the result of `isAuthoritative` is not a panic and its zone cut is not empty -/
@@ -108,17 +139,20 @@ theorem isAuthoritativeV1_good (v : View) : ∀ (fuel : Nat) (z : Bytes) (ns aut
 
 /-! ### `serve` does not panic when its parts do not -/
 
-theorem serve_no_panic_of (v : View) (q : Query)
-    (h1 : ∀ z, Wf z → GoodCut (isAuthoritative v z)) (hq : Wf q.qname)
+theorem serve_no_panic_of (v : View) (q : Query) (P : Bytes → Prop)
+    (hPwf : ∀ z, P z → Wf z)
+    (hPpar : ∀ (n : UInt8) (rest : Bytes), P (n :: rest) → n ≠ 0 → P (rest.drop n.toNat))
+    (h1 : ∀ z, P z → GoodCut (isAuthoritative v z)) (hqP : P q.qname)
     (h2 : ∀ control, v.v2 = true → findAnswerV2 v q.qname control q.qnameOut q.qtype ≠ .panic) :
     serve v q ≠ .panic := by
+  have hq : Wf q.qname := hPwf _ hqP
   unfold serve
   split
   · intro h; cases h
   · intro h; cases h
   · rename_i cut hcut
     have hcut0 : cut.zoneCut ≠ [] := by
-      have := h1 _ hq
+      have := h1 _ hqP
       rw [hcut] at this
       exact this
     split
@@ -135,7 +169,7 @@ theorem serve_no_panic_of (v : View) (q : Query)
               intro hn0
               apply hc.2.2
               rw [hqn, hn0]; rfl
-            have hp := h1 _ ((hqn ▸ hq).parent hn).2
+            have hp := h1 _ (hPpar n rest (hqn ▸ hqP) hn)
             split
             · rename_i c2 hc2
               rw [hc2] at hp
@@ -493,20 +527,105 @@ theorem lwl_some (q : Bytes) (ql : Nat) (hB : (ql % 256 + 255) % 256 ≤ q.lengt
     · rw [if_neg hi]
       exact ⟨last + 1, rfl, by omega, by omega⟩
 
-/-- every key carrying the resource-record marker holds, between the marker and its last two bytes
-(the location), a byte string that starts with a well-formed wire name -/
+theorem seekForPrev_le (s : Store) (k : Bytes) (e : Bytes × List Bytes)
+    (h : s.seekForPrev k = some e) : Rdb.bytesLe e.1 k = true := by
+  unfold Store.seekForPrev at h
+  have : ∀ (l : List (Bytes × List Bytes)) (init : Option (Bytes × List Bytes)),
+      (∀ x, init = some x → Rdb.bytesLe x.1 k = true) →
+      ∀ x, l.foldl (fun best e =>
+        if Rdb.bytesLe e.1 k then
+          match best with
+          | none => some e
+          | some b => if Rdb.bytesLt b.1 e.1 then some e else some b
+        else best) init = some x → Rdb.bytesLe x.1 k = true := by
+    intro l
+    induction l with
+    | nil => intro init hi x hx; exact hi x hx
+    | cons a l ih =>
+      intro init hi x hx
+      rw [List.foldl_cons] at hx
+      refine ih _ ?_ x hx
+      intro y hy
+      split at hy
+      · rename_i hle
+        split at hy
+        · cases hy; exact hle
+        · split at hy
+          · cases hy; exact hle
+          · exact hi y hy
+      · exact hi y hy
+  exact this s none (fun x hx => by cases hx) e h
+
+/-- the first byte of the name part of a search key is 0 or the first byte of `rev` -/
+theorem nameKey_head (rev : Bytes) (m : Nat) (loc : Bytes) :
+    ∃ n rest, rev.take m ++ [0] ++ loc = n :: rest ∧ (n = 0 ∨ rev.head? = some n) := by
+  cases rev with
+  | nil => exact ⟨0, loc, by simp, Or.inl rfl⟩
+  | cons c t =>
+    cases m with
+    | zero => exact ⟨0, loc, by simp, Or.inl rfl⟩
+    | succ m => exact ⟨c, t.take m ++ [0] ++ loc, by simp, Or.inr rfl⟩
+
+/-- a marker key whose first name byte is 64 or more is above every search key of a name whose
+labels are shorter than 64 -/
+theorem high_key_not_le (rev : Bytes) (hhead : ∀ c, rev.head? = some c → c.toNat < 64)
+    (k : Bytes) (hm : k.take 2 = Generated.dnsdata_ResourceRecordsKeyMarker)
+    (h64 : 64 ≤ (k[2]?.getD 0).toNat) (m : Nat) (loc : Bytes)
+    (hle : Rdb.bytesLe k (Generated.dnsdata_ResourceRecordsKeyMarker ++ rev.take m ++ [0] ++ loc) = true) :
+    False := by
+  obtain ⟨n, rest, hn, hn0⟩ := nameKey_head rev m loc
+  have hn64 : n.toNat < 64 := by
+    rcases hn0 with rfl | h
+    · decide
+    · exact hhead n h
+  match k, hm, h64 with
+  | [], hm, _ => cases hm
+  | [_], hm, _ => cases hm
+  | [_, _], _, h64 => exact absurd (show 64 ≤ (0 : UInt8).toNat from h64) (by decide)
+  | a :: b :: c :: t, hm, h64 =>
+    have hab : a = 0 ∧ b = 111 := by
+      have : [a, b] = [0, 111] := hm
+      injection this with h1 h2
+      injection h2 with h2 _
+      exact ⟨h1, h2⟩
+    obtain ⟨rfl, rfl⟩ := hab
+    have hc : 64 ≤ c.toNat := h64
+    have hkey : Generated.dnsdata_ResourceRecordsKeyMarker ++ rev.take m ++ [0] ++ loc = 0 :: 111 :: n :: rest := by
+      have : Generated.dnsdata_ResourceRecordsKeyMarker ++ rev.take m ++ [0] ++ loc
+          = [0, 111] ++ (rev.take m ++ [0] ++ loc) := by
+        simp only [List.append_assoc]; rfl
+      rw [this, hn]; rfl
+    rw [hkey] at hle
+    have hlt : Rdb.bytesLt (0 :: 111 :: n :: rest) (0 :: 111 :: c :: t) = true := by
+      simp only [Rdb.bytesLt]
+      have : n.toNat < c.toNat := by omega
+      simp [this]
+    unfold Rdb.bytesLe at hle
+    rw [hlt] at hle
+    cases hle
+
+/-- Every key carrying the resource-record marker either holds, between the marker and its last
+two bytes (the location), a byte string that starts with a well-formed wire name, or its first
+byte after the marker is 64 or more (such a key sorts above every search key of a name whose
+labels are shorter than 64 bytes and is never reached; the features key `"\x00o_features"` is of
+this kind). Decidable. -/
 def V2KeysOk (s : Store) : Prop :=
   ∀ e ∈ s, e.1.take 2 = Generated.dnsdata_ResourceRecordsKeyMarker →
-    (unpack ((e.1.drop 2).take (e.1.length - 4))).isSome = true
+    (unpack ((e.1.drop 2).take (e.1.length - 4))).isSome = true ∨ 64 ≤ (e.1[2]?.getD 0).toNat
+
+/-- the first label of the reversed name (the top-level label) is shorter than 64 bytes -/
+def HeadOk (rev : Bytes) : Prop := ∀ c, rev.head? = some c → c.toNat < 64
 
 theorem findGo_tail {σ : Type} (v : View) (rev : Bytes)
     (pre : Nat → σ → Option σ) (onRows : List Bytes → σ → σ) (post : σ → σ × Bool) (J : σ → Prop)
-    (hs : V2KeysOk v.store) (hrev : Exact rev)
+    (hs : V2KeysOk v.store) (hrev : Exact rev) (hhead : HeadOk rev)
     (hpost : ∀ st, J st → J (post st).1)
     (fuel ql : Nat) (hql1 : 1 ≤ ql) (hql2 : ql ≤ rev.length + 1)
     (ih : ∀ (nl : Nat) (st : σ), 1 ≤ nl → nl ≤ rev.length + 1 → J st →
       ∃ st', findGo v rev pre onRows post fuel nl st = .ok st' ∧ J st')
-    (k : Option Bytes) (st3 : σ) (hJ3 : J st3) (hk : k = none ∨ ∃ e ∈ v.store, k = some e.1) :
+    (k : Option Bytes) (st3 : σ) (hJ3 : J st3)
+    (hk : k = none ∨ ∃ e ∈ v.store, k = some e.1 ∧ ∃ loc, Rdb.bytesLe e.1
+      (Generated.dnsdata_ResourceRecordsKeyMarker ++ rev.take (ql - 1) ++ [0] ++ loc) = true) :
     ∃ st', (match post st3 with
       | (st4, cont) =>
         if ¬ cont then R.ok st4
@@ -539,17 +658,20 @@ theorem findGo_tail {σ : Type} (v : View) (rev : Bytes)
   · exact ⟨st4, rfl, hJ4⟩
   -- the found key carries the marker: it is a key of the store
   have hkey : (unpack ((kk.drop 2).take (kk.length - 4))).isSome = true := by
-    rcases hk with hk | ⟨e, he, hk⟩
+    rcases hk with hk | ⟨e, he, hk, loc, hle⟩
     · exfalso; apply hkk; left
       show (k.getD []).length < 2
       rw [hk]; decide
     · have hkke : kk = e.1 := by show k.getD [] = e.1; rw [hk]; rfl
       rw [hkke]
-      apply hs e he
-      rw [← hkke]
-      apply Classical.byContradiction
-      intro hne
-      exact hkk (Or.inr hne)
+      have hmk : e.1.take 2 = Generated.dnsdata_ResourceRecordsKeyMarker := by
+        rw [← hkke]
+        apply Classical.byContradiction
+        intro hne
+        exact hkk (Or.inr hne)
+      rcases hs e he hmk with hok | h64
+      · exact hok
+      · exact (high_key_not_le rev hhead e.1 hmk h64 (ql - 1) loc hle).elim
   cases hun : unpack ((kk.drop 2).take (kk.length - 4)) with
   | none => rw [hun] at hkey; cases hkey
   | some fls =>
@@ -582,7 +704,7 @@ theorem findGo_tail {σ : Type} (v : View) (rev : Bytes)
 
 theorem findGo_ok {σ : Type} (v : View) (rev : Bytes)
     (pre : Nat → σ → Option σ) (onRows : List Bytes → σ → σ) (post : σ → σ × Bool) (J : σ → Prop)
-    (hs : V2KeysOk v.store) (hrev : Exact rev)
+    (hs : V2KeysOk v.store) (hrev : Exact rev) (hhead : HeadOk rev)
     (hpre : ∀ ql st st1, 1 ≤ ql → pre ql st = some st1 → J st1)
     (hrows : ∀ rows st, J st → J (onRows rows st))
     (hpost : ∀ st, J st → J (post st).1) :
@@ -609,38 +731,73 @@ theorem findGo_ok {σ : Type} (v : View) (rev : Bytes)
       rw [if_neg (by omega)]
       extract_lets marker nameKey key tryForEach
       have htry : ∀ k st, J st → J (tryForEach k st).2 ∧
-          ((tryForEach k st).1 = none ∨ ∃ e ∈ v.store, (tryForEach k st).1 = some e.1) := by
+          ((tryForEach k st).1 = none ∨ ∃ e ∈ v.store, (tryForEach k st).1 = some e.1 ∧
+            Rdb.bytesLe e.1 k = true) := by
         intro k st hj
         simp only [tryForEach]
         split
         · exact ⟨hj, Or.inl rfl⟩
         · rename_i fk vals hseek
           have hm := seekForPrev_mem _ _ _ hseek
+          have hle := seekForPrev_le _ _ _ hseek
           split
-          · exact ⟨hrows _ _ hj, Or.inr ⟨_, hm, rfl⟩⟩
-          · exact ⟨hj, Or.inr ⟨_, hm, rfl⟩⟩
+          · exact ⟨hrows _ _ hj, Or.inr ⟨_, hm, rfl, hle⟩⟩
+          · exact ⟨hj, Or.inr ⟨_, hm, rfl, hle⟩⟩
       clear_value tryForEach
       have h1 := htry key st1 hJ1
       generalize tryForEach key st1 = p1 at h1 ⊢
       obtain ⟨k1, st2⟩ := p1
       simp only [] at h1 ⊢
       obtain ⟨hJ2, hk1⟩ := h1
-      have tl := findGo_tail v rev pre onRows post J hs hrev hpost fuel ql hql1 hql2
+      have tl := findGo_tail v rev pre onRows post J hs hrev hhead hpost fuel ql hql1 hql2
         (fun nl st h1 h2 hj => ih nl st h1 h2 (Or.inl hj))
+      have hk1' : k1 = none ∨ ∃ e ∈ v.store, k1 = some e.1 ∧ ∃ loc, Rdb.bytesLe e.1
+          (Generated.dnsdata_ResourceRecordsKeyMarker ++ rev.take (ql - 1) ++ [0] ++ loc) = true := by
+        rcases hk1 with h | ⟨e, he, hk, hle⟩
+        · exact Or.inl h
+        · exact Or.inr ⟨e, he, hk, v.loc, hle⟩
       cases k1 with
-      | none => exact tl none st2 hJ2 hk1
+      | none => exact tl none st2 hJ2 hk1'
       | some fk =>
         dsimp only
         split
         · have h3 := htry (nameKey ++ [0, 0]) st2 hJ2
           generalize tryForEach (nameKey ++ [0, 0]) st2 = p3 at h3 ⊢
           obtain ⟨k, st3⟩ := p3
-          exact tl k st3 h3.1 h3.2
-        · exact tl (some fk) st2 hJ2 hk1
+          refine tl k st3 h3.1 ?_
+          rcases h3.2 with h | ⟨e, he, hk, hle⟩
+          · exact Or.inl h
+          · exact Or.inr ⟨e, he, hk, [0, 0], hle⟩
+        · exact tl (some fk) st2 hJ2 hk1'
 
-theorem isAuthoritativeV2_good (v : View) (hs : V2KeysOk v.store) (q : Bytes) (hq : Wf q) :
+theorem pack_cons (l : Bytes) (ls : List Bytes) : pack (l :: ls) = UInt8.ofNat l.length :: (l ++ pack ls) := by
+  simp [pack]
+
+theorem headOk_pack (ls : List Bytes) (h63 : ∀ l ∈ ls, l.length < 64) : HeadOk (pack ls) := by
+  intro c hc
+  cases ls with
+  | nil =>
+    have : c = 0 := by
+      have h : (pack ([] : List Bytes)).head? = some 0 := rfl
+      rw [h] at hc
+      injection hc with hc
+      exact hc.symm
+    rw [this]; decide
+  | cons l t =>
+    rw [pack_cons] at hc
+    have hl := h63 l (List.mem_cons_self ..)
+    have : c = UInt8.ofNat l.length := by
+      simp only [List.head?_cons] at hc
+      injection hc with hc
+      exact hc.symm
+    rw [this, UInt8.toNat_ofNat_of_lt' (by show l.length < 256; omega)]
+    exact hl
+
+theorem isAuthoritativeV2_good (v : View) (hs : V2KeysOk v.store) (q : Bytes) (hq63 : Wf63 q) :
     GoodCut (isAuthoritativeV2 v q) := by
-  obtain ⟨ls, hls⟩ := hq.unpack
+  have hq : Wf q := hq63.wf
+  obtain ⟨ls, hls, h63⟩ := hq63.unpack
+  have hhead : HeadOk (pack ls.reverse) := headOk_pack _ (fun l hl => h63 l (List.mem_reverse.mp hl))
   have hrw : reverseWire q = some (pack ls.reverse) := by unfold reverseWire; rw [hls]; rfl
   have hex := reverseWire_exact hrw
   have hlen : 1 ≤ (pack ls.reverse).length := List.length_pos_iff.mpr hex.ne_nil
@@ -648,7 +805,7 @@ theorem isAuthoritativeV2_good (v : View) (hs : V2KeysOk v.store) (q : Bytes) (h
   rw [hrw]
   dsimp -zeta only
   extract_lets pre onRows post
-  obtain ⟨st', hst', hJ⟩ := findGo_ok v (pack ls.reverse) pre onRows post (fun st => 1 ≤ st.2.2.1) hs hex
+  obtain ⟨st', hst', hJ⟩ := findGo_ok v (pack ls.reverse) pre onRows post (fun st => 1 ≤ st.2.2.1) hs hex hhead
     (fun ql st st1 h1 h => by cases h; exact h1)
     (fun rows st h => by
       simp only [onRows]
@@ -667,8 +824,10 @@ theorem isAuthoritativeV2_good (v : View) (hs : V2KeysOk v.store) (q : Bytes) (h
   omega
 
 theorem findAnswerV2_no_panic (v : View) (hs : V2KeysOk v.store) (q control qnameOut : Bytes) (qtype : Nat)
-    (hq : Wf q) : findAnswerV2 v q control qnameOut qtype ≠ .panic := by
-  obtain ⟨ls, hls⟩ := hq.unpack
+    (hq63 : Wf63 q) : findAnswerV2 v q control qnameOut qtype ≠ .panic := by
+  have hq : Wf q := hq63.wf
+  obtain ⟨ls, hls, h63⟩ := hq63.unpack
+  have hhead : HeadOk (pack ls.reverse) := headOk_pack _ (fun l hl => h63 l (List.mem_reverse.mp hl))
   have hrw : reverseWire q = some (pack ls.reverse) := by unfold reverseWire; rw [hls]; rfl
   have hex := reverseWire_exact hrw
   have hlen : 1 ≤ (pack ls.reverse).length := List.length_pos_iff.mpr hex.ne_nil
@@ -676,7 +835,7 @@ theorem findAnswerV2_no_panic (v : View) (hs : V2KeysOk v.store) (q control qnam
   rw [hrw]
   dsimp -zeta only
   extract_lets pre onRows post
-  obtain ⟨st', hst', _⟩ := findGo_ok v (pack ls.reverse) pre onRows post (fun _ => True) hs hex
+  obtain ⟨st', hst', _⟩ := findGo_ok v (pack ls.reverse) pre onRows post (fun _ => True) hs hex hhead
     (fun _ _ _ _ _ => trivial) (fun _ _ _ => trivial) (fun _ _ => trivial)
     ((pack ls.reverse).length + 2) (pack ls.reverse).length ({}, false, (pack ls.reverse).length) hlen (by omega)
     (Or.inl trivial)
@@ -686,9 +845,6 @@ theorem findAnswerV2_no_panic (v : View) (hs : V2KeysOk v.store) (q control qnam
 
 
 /-! ### the canonical v2 key format satisfies `V2KeysOk` -/
-
-theorem pack_cons (l : Bytes) (ls : List Bytes) : pack (l :: ls) = UInt8.ofNat l.length :: (l ++ pack ls) := by
-  simp [pack]
 
 theorem labels_pack : ∀ (ls : List Bytes) (t : Bytes) (fuel : Nat), GoodLabels ls → ls.length < fuel →
     labels fuel (pack ls ++ t) = some ls := by
@@ -744,6 +900,7 @@ theorem V2KeysOk_of_canonical (s : Store)
     rw [this, List.append_assoc]
     show List.take _ (pack ls ++ loc) = _
     rw [List.take_left]
+  left
   rw [h1]
   have := labels_pack ls [] ((pack ls).length + 1) hg (by
     have := length_lt_pack ls
